@@ -41,6 +41,12 @@ def rune_go_v(tr):
     L.append("Definition predefs : list (string * list N) := [")
     L.append(";\n".join("  (%s, %s)" % (C.coq_string(k), nl(C.codepoints(v))) for k, v in sorted(tr["predefs"].items())))
     L.append("].")
+    # terminalNames (spec/symbol_table.go); keys that a STRING lexeme cannot contain (control characters, space) are left out
+    tn = {k: v for k, v in tr.get("terminal_names", {}).items() if all(33 <= ord(ch) < 127 for ch in k)}
+    L.append("Definition terminal_names : list (string * string) := [%s]." % "; ".join(
+        "(%s, %s)" % (C.coq_string(k), C.coq_string(v)) for k, v in sorted(tn.items())))
+    L.append("Definition predefs_s : list (string * string) := [%s]." % "; ".join(
+        "(%s, %s)" % (C.coq_string(k), C.coq_string(v)) for k, v in sorted(tr["predefs"].items())))
     return "\n".join(L) + "\n"
 
 
